@@ -77,8 +77,21 @@ fn g_resp(src: &mut Src, obs: &mut Obs) -> CaseResult {
     let (resp, parts): (Response, Vec<(&str, Vec<u8>)>) = match kind {
         0 => {
             let header = src.byte();
-            let x = src.bytes(32);
-            let y = src.bytes(32);
+            let mut x = src.bytes(32);
+            let mut y = src.bytes(32);
+            // coordinates with a meaning to elliptic-curve code: all zero (the encoding some
+            // libraries use for the point at infinity), all 0xFF, only the top or bottom bit set
+            if src.chance(1, 6) {
+                let fill = *src.pick(&[0x00u8, 0xFF, 0x00, 0x80]);
+                x = vec![fill; 32];
+                if src.chance(3, 4) {
+                    y = vec![fill; 32];
+                }
+                if src.chance(1, 4) {
+                    y[31] = 1;
+                }
+                obs.label("content:constant-coordinates");
+            }
             let khl = match src.below(6) {
                 0 => 0,
                 1 => 255,
@@ -177,7 +190,14 @@ fn g_resp(src: &mut Src, obs: &mut Obs) -> CaseResult {
         remaining = cap - prefix_len;
         obs.label("roomy-buffer");
     }
-    let prefix: Vec<u8> = (0..prefix_len).map(|i| 0xC0 ^ (i as u8).wrapping_mul(13)).collect();
+    let mut prefix: Vec<u8> = (0..prefix_len).map(|i| 0xC0 ^ (i as u8).wrapping_mul(13)).collect();
+    // what a reused transport buffer typically ends in: an ISO 7816 status word, zeros, 0xFF
+    if prefix_len >= 2 && src.chance(1, 4) {
+        let tail: [u8; 2] = *src.pick(&[[0x90, 0x00], [0x61, 0x10], [0x69, 0x85], [0x00, 0x00], [0xFF, 0xFF], [0x00, 0x90]]);
+        prefix[prefix_len - 2] = tail[0];
+        prefix[prefix_len - 1] = tail[1];
+        obs.label("prefix:ends-in-status-word");
+    }
     let fits = model.len() <= remaining;
     obs.labelf(format!("kind:{}", kname));
     obs.label(if fits { "fits" } else { "overflow" });
@@ -252,7 +272,7 @@ pub fn gens() -> Vec<Gen> {
     vec![G_RESP]
 }
 
-pub const RULE: &str = "Register (via register::Response::new with random x, y; key-handle length 0..255, certificate 0..1024, signature 0..72, boundary lengths boosted), Authenticate (presence byte, counter over the big-endian byte patterns 0,1,0xFF,0x100,0x01020304,0x80000000,0xFFFFFFFF and random, signature 0..72) and Version responses, serialised into iso7816::Data<S> for S in {0,1,2,5,6,7,8,66,67,68,77,78,79,256,330,1024,1500,2048} with certificate / signature / key-handle contents that are either random or shaped like DER elements (SEQUENCE tag with a short, 0x81 or 0x82 length that is consistent, too short or too long), pre-filled with a sentinel prefix whose length is chosen so that the REMAINING space is boundary-2 .. boundary+2 for every part boundary (header | key | length byte | handle | certificate | signature) - exhaustive over (kind, boundary, delta), proptest over contents and capacities. One case in ten uses a roomy buffer instead (capacity 7609, 65535, 65536, 65537, 65600, 66000, 70000, 131072 or 131100 with a prefix of 0..600 bytes). Oracle: model = concatenation per the statement; fits -> Ok(()) and buffer == prefix || model; does not fit -> Err(()), no panic, prefix bytes unchanged. Non-trivial: non-empty prefix or a failing capacity; distinct by (kind, message, capacity, prefix length).";
+pub const RULE: &str = "Register (via register::Response::new with random x, y - one time in six constant-filled coordinates (all zero, all 0xFF, a single bit); key-handle length 0..255, certificate 0..1024, signature 0..72, boundary lengths boosted), Authenticate (presence byte, counter over the big-endian byte patterns 0,1,0xFF,0x100,0x01020304,0x80000000,0xFFFFFFFF and random, signature 0..72) and Version responses, serialised into iso7816::Data<S> for S in {0,1,2,5,6,7,8,66,67,68,77,78,79,256,330,1024,1500,2048} with certificate / signature / key-handle contents that are either random or shaped like DER elements (SEQUENCE tag with a short, 0x81 or 0x82 length that is consistent, too short or too long), pre-filled with a sentinel prefix (one time in four ending in an ISO 7816 status word such as 90 00, zeros or 0xFF) whose length is chosen so that the REMAINING space is boundary-2 .. boundary+2 for every part boundary (header | key | length byte | handle | certificate | signature) - exhaustive over (kind, boundary, delta), proptest over contents and capacities. One case in ten uses a roomy buffer instead (capacity 7609, 65535, 65536, 65537, 65600, 66000, 70000, 131072 or 131100 with a prefix of 0..600 bytes). Oracle: model = concatenation per the statement; fits -> Ok(()) and buffer == prefix || model; does not fit -> Err(()), no panic, prefix bytes unchanged. Non-trivial: non-empty prefix or a failing capacity; distinct by (kind, message, capacity, prefix length).";
 pub const ASSUMPTIONS: &[&str] = &["bytes after the prefix are unspecified when serialisation fails and are not asserted"];
 
 pub fn run(ctx: &mut Ctx) {
